@@ -30,7 +30,6 @@ Lemma inner_self L s1 : forall olds r,
 Proof.
   induction olds as [|s2 rest IH]; intros r Hin H1 F E; simpl; [exact E|].
   assert (I2 : In s2 L) by (apply Hin; now left).
-  rewrite (mem_name_In s2 L I2). simpl.
   destruct (sv_name s1 =? sv_name s2) eqn:En.
   - apply Z.eqb_eq in En. rewrite (F s1 s2 H1 I2 En), Z.eqb_refl. simpl.
     apply IH; auto. intros x Hx. apply Hin. now right.
@@ -49,10 +48,19 @@ Proof.
 Qed.
 
 (* comparing a layer with itself reports no change *)
+Lemma deleted_pass_self L : forall olds, incl olds L -> deleted_pass L olds = [].
+Proof.
+  unfold deleted_pass. induction olds as [|s2 olds IH]; intros Hin; simpl; [reflexivity|].
+  rewrite (mem_name_In s2 L (Hin s2 (or_introl eq_refl))). simpl. apply IH. intros x Hx. apply Hin. now right.
+Qed.
+
 Theorem self_empty L : names_functional L -> empty_report (compare_layers L L).
 Proof.
-  intros F. unfold compare_layers. apply fold_self; [apply incl_refl | exact F |].
-  repeat split.
+  intros F. unfold compare_layers.
+  assert (E : empty_report (fold_left (outer_step L L) L (mkR [] [] [] [])))
+    by (apply fold_self; [apply incl_refl | exact F | repeat split]).
+  destruct E as (E1 & E2 & E3 & E4). unfold empty_report. simpl.
+  rewrite E1, E2, E3, E4, (deleted_pass_self L L (incl_refl L)). repeat split.
 Qed.
 
 Ltac crush :=
@@ -91,7 +99,7 @@ Theorem added_service_is_new news olds s :
   In s news -> mem_name (sv_name s) olds = false -> mem_prefix (sv_prefix s) olds = false ->
   In (sv_name s) (r_new (compare_layers news olds)).
 Proof.
-  intros Hin Hn Hp. unfold compare_layers.
+  intros Hin Hn Hp. unfold compare_layers. cbn [r_new].
   assert (Step : forall l r, In s l -> In (sv_name s) (r_new (fold_left (outer_step news olds) l r))).
   { induction l as [|a l IH]; intros r Hs; [contradiction|]. simpl. destruct Hs as [->|Hs]; [|now apply IH].
     apply fold_new_mono. unfold outer_step. rewrite inner_new, (not_mem_svc s olds Hn), Hp, Hn. simpl.
@@ -122,7 +130,7 @@ Theorem renamed_service_is_reported news olds s s_old :
   rename_partner news (sv_prefix s) olds = Some s_old ->
   In (sv_name s, sv_name s_old) (r_renamed (compare_layers news olds)).
 Proof.
-  intros Hin Hn Hf. unfold compare_layers.
+  intros Hin Hn Hf. unfold compare_layers. cbn [r_renamed].
   assert (Mp : mem_prefix (sv_prefix s) olds = true) by (eapply rename_partner_mem; eauto).
   assert (Step : forall l r, In s l -> In (sv_name s, sv_name s_old) (r_renamed (fold_left (outer_step news olds) l r))).
   { induction l as [|a l IH]; intros r Hs; [contradiction|]. simpl. destruct Hs as [->|Hs]; [|now apply IH].
@@ -159,6 +167,33 @@ Theorem rename_edit_is_reported news pre post s s_old :
 Proof.
   intros Hin Hn Hp Hv Hpre. apply renamed_service_is_reported; auto.
   now apply rename_partner_of_edit.
+Qed.
+
+(* a service of the old layer whose name and request prefix are both gone is reported as deleted,
+   whatever the new layer contains (also nothing at all) *)
+Theorem deleted_service_is_reported news olds s :
+  In s olds -> mem_name (sv_name s) news = false -> mem_prefix (sv_prefix s) news = false ->
+  In (sv_name s) (r_deleted (compare_layers news olds)).
+Proof.
+  intros Hin Hn Hp. unfold compare_layers. cbn [r_deleted]. apply in_or_app. right.
+  unfold deleted_pass. apply in_map. apply filter_In. split; [exact Hin|]. now rewrite Hn, Hp.
+Qed.
+
+(* ... and nothing else is: a reported deletion is a service of the old layer whose name vanished *)
+Lemma inner_deleted news o : forall s1 r0, r_deleted (inner news s1 o r0) = r_deleted r0.
+Proof. induction o as [|s2 o IH]; intros s1 r0; simpl; [reflexivity|]. rewrite IH. crush. Qed.
+Lemma fold_deleted news olds l : forall r, r_deleted (fold_left (outer_step news olds) l r) = r_deleted r.
+Proof.
+  induction l as [|a l IH]; intros r; simpl; [reflexivity|]. rewrite IH. unfold outer_step.
+  rewrite inner_deleted. crush.
+Qed.
+Theorem reported_deletion_is_real news olds n :
+  In n (r_deleted (compare_layers news olds)) ->
+  exists s, In s olds /\ sv_name s = n /\ mem_name n news = false.
+Proof.
+  unfold compare_layers. cbn [r_deleted]. rewrite fold_deleted. simpl. unfold deleted_pass.
+  intros H. apply in_map_iff in H as (s & <- & Hs). apply filter_In in Hs as [Hin Hc].
+  apply andb_true_iff in Hc as [Hc _]. exists s. repeat split; auto. now apply negb_true_iff in Hc.
 Qed.
 
 (* the behaviour before the fix commit: the rename branch was unreachable *)
